@@ -135,7 +135,29 @@ fn gen(seed: u64, idx: u64, _tier: Tier) -> Plan {
     };
     plan.step(0, Action::StartRefServer(spec));
     let key = if rng.below(10) == 0 { None } else { Some(&pk[..]) };
-    plan.step(1000, Action::RunClient { argv: client_args(&mut rng, port, proto, key, n1, 2) });
+    let mut argv1 = client_args(&mut rng, port, proto, key, n1, 2);
+    if rng.chance(1, 10) {
+        // the key in a spelling the client does not document: whatever it makes of it (refusing to
+        // start is fine), it must not go on to present unauthentic responses as the time
+        if let Some(i) = argv1.iter().position(|a| a == "-k") {
+            let hex = r::hex_lower(&pk);
+            let b64 = r::base64(&pk, false, true);
+            argv1[i + 1] = match rng.below(10) {
+                0 => b64.trim_end_matches('=').to_string(),
+                1 => format!("{}=", b64),
+                2 => format!("0x{}", hex),
+                3 => hex.as_bytes().chunks(2).map(|c| String::from_utf8_lossy(c).to_string()).collect::<Vec<_>>().join(":"),
+                4 => format!("{}\n{}", &hex[..32], &hex[32..]),
+                5 => String::new(),
+                6 => format!("\"{}\"", hex),
+                7 => format!(" {} ", hex),
+                8 => r::base64(&pk, true, false),
+                _ => hex[..62].to_string(),
+            };
+            plan.params.insert("odd_key_spelling".into(), 1);
+        }
+    }
+    plan.step(1000, Action::RunClient { argv: argv1 });
     if two_runs {
         // after the first incarnation is certainly over (its timeout is 2 s per socket)
         plan.step(1000 + (n1 as u64 + 1) * 2_100_000, Action::RunClient { argv: client_args(&mut rng, port, proto, key, n2, 2) });
